@@ -3,7 +3,8 @@
    the Blake3 evaluations along the chain are supplied as a table. *)
 From Coq Require Import List ZArith NArith Bool.
 Require Import Mixin.Base.Res.
-Require Export Mixin.Model.RoundHash.
+From Coq Require Export Uint63.
+Require Export Mixin.Model.RoundNum Mixin.Model.RoundHash.
 Import ListNotations.
 Open Scope N_scope.
 
